@@ -23,7 +23,7 @@ UNIT = dict(
             ("sub", "R13-pin", r"delay_fut\.as_mut\(\)\.", "delay_fut.", -1),
             ("sub", "R13-pin", r"\(&mut delay_fut\)\.vx_await\(", "delay_fut.vx_await_mut(clk, ", 1),
             ("sub", "R10-guard", r"match first_delay \{\s*Some\(delay\) if delay > Duration::ZERO => \{", "match vx_positive_delay(first_delay) { Some(delay) => {", 1),
-            ("sub", "R10-closure", r"primary_error\.unwrap_or_else\(\|\| e\.clone\(\)\)", "(match primary_error { Some(vx_pe) => vx_pe, None => e.clone() })", 1),
+            ("sub", "R10-closure", r"primary_error\.unwrap_or_else\(\|\| e\.clone\(\)\)", "(match primary_error { Some(vx_pe) => vx_pe, None => e.clone() })", -1),
             ("sub", "expect", r"\.expect\(\"[^\"]*\"\)", ".unwrap()", 1),
             ("sub", "R6-drop", r"\bdrop\(tx\);", "vx_drop_tx(tx, Tracked(tr));", 1),
             ("R3",), ("R5",),
